@@ -5,10 +5,13 @@ package main
 // bodies through real Dispatch with the ledger provider, (c) double Close.
 
 import (
+	"bufio"
 	"bytes"
 	"compress/gzip"
 	"fmt"
+	"io"
 	"math/rand"
+	"net"
 	"net/http"
 	"net/http/httptest"
 	"runtime"
@@ -66,6 +69,17 @@ func spinBarrier(tw *traceWriter, k, m, rounds int) {
 	}
 }
 
+// hijackRecorder: a recorder whose connection can be taken over, like the ResponseWriter of a real HTTP/1 server
+type hijackRecorder struct {
+	*httptest.ResponseRecorder
+}
+
+func (h hijackRecorder) Hijack() (net.Conn, *bufio.ReadWriter, error) {
+	a, b := net.Pipe()
+	go func() { io.Copy(io.Discard, b); b.Close() }()
+	return a, bufio.NewReadWriter(bufio.NewReader(a), bufio.NewWriter(a)), nil
+}
+
 type poolEntity struct {
 	ID   string `json:"id"`
 	Data string `json:"data"`
@@ -97,6 +111,15 @@ func poolRound(tw *traceWriter, r *rand.Rand, provider string, g, perG int) {
 			panic("boom-" + id)
 		}
 	}))
+	// a handler that takes the connection over (websocket style) while a content coding is installed
+	ws.Route(ws.GET("/hj/{id}").To(func(req *restful.Request, resp *restful.Response) {
+		if hj, ok := resp.ResponseWriter.(http.Hijacker); ok {
+			if conn, _, err := hj.Hijack(); err == nil && conn != nil {
+				conn.Write([]byte("raw-" + req.PathParameter("id")))
+				conn.Close()
+			}
+		}
+	}))
 	ws.Route(ws.POST("/in").Consumes(restful.MIME_JSON).To(func(req *restful.Request, resp *restful.Response) {
 		var e poolEntity
 		if err := req.ReadEntity(&e); err != nil {
@@ -122,8 +145,20 @@ func poolRound(tw *traceWriter, r *rand.Rand, provider string, g, perG int) {
 			<-start
 			for j := 0; j < perG; j++ {
 				id := fmt.Sprintf("%d%d%d", gi+1, j, rr.Intn(10))
-				switch rr.Intn(3) {
-				case 0, 1: // encoded response
+				switch rr.Intn(7) {
+				case 6: // the handler hijacks the connection
+					hr, _ := buildRequest("GET", "/p/hj/"+id, [][2]string{{"Accept-Encoding", "gzip"}}, nil, false)
+					rec := hijackRecorder{httptest.NewRecorder()}
+					func() {
+						defer func() { recover() }()
+						if rr.Intn(2) == 0 {
+							c.ServeHTTP(rec, hr)
+						} else {
+							c.Dispatch(rec, hr)
+						}
+					}()
+					results[gi] = append(results[gi], result{true, "hijack " + id})
+				case 0, 1, 3, 4: // encoded response
 					ae := "gzip"
 					if rr.Intn(2) == 0 {
 						ae = "deflate"
@@ -142,7 +177,7 @@ func poolRound(tw *traceWriter, r *rand.Rand, provider string, g, perG int) {
 					want := append([]byte("payload-"+id+"-"), bytes.Repeat([]byte(id), 50)...)
 					good := ok && bytes.HasPrefix(decoded, want) && wireHeader(rec).Get("Content-Encoding") == ae
 					results[gi] = append(results[gi], result{good, "response " + id})
-				case 2: // gzip request body (sometimes corrupt)
+				default: // gzip request body (sometimes corrupt)
 					body := gzipBytes([]byte(fmt.Sprintf(`{"id":"%s","data":"d%s"}`, id, id)))
 					corrupt := rr.Intn(4) == 0
 					if corrupt {
